@@ -2262,4 +2262,968 @@ theorem FLe_find (reg : Registry) (f : Forest) (start : Loc) (ctx : Nat) (name :
     | (rename_i heq; exact FLe_setTree _ _ _ _ heq (ownMono_walkParts _ _ _))
     | (rename_i heq; exact FLe_setTree _ _ _ _ heq (ownMono_addErr _ _))
 
+/-! ### one `Augment` call, step by step -/
+
+/-- What `augmentTree` does when an augment cannot be applied. -/
+def augFail (id : Nat) (addErrors : Bool) (a : Entry) (s : PState) (unapplied : List Entry) (p k : Nat) :
+    PState × List Entry × Nat × Nat :=
+  let s := if addErrors then
+      match s.forest.tree? id with
+      | some root => { s with forest := s.forest.setTree id (root.addErr (Err.at_ a.d.node "augment-not-found")) }
+      | none => s
+    else s
+  (s, unapplied ++ [a], p, k + 1)
+
+/-- The body of the loop over the pending augments of one tree. -/
+def augStep (reg : Registry) (id : Nat) (addErrors : Bool) (nsOf : String)
+    (acc : PState × List Entry × Nat × Nat) (a : Entry) : PState × List Entry × Nat × Nat :=
+  let (s, unapplied, p, k) := acc
+  let (target, forest) := find reg s.forest (id, []) a.d.nodeMod a.d.name
+  let s := { s with forest := forest }
+  match target with
+  | none => augFail id addErrors a s unapplied p k
+  | some (t, path) =>
+    match (s.forest.tree? t).bind (·.getAt path) with
+    | none => augFail id addErrors a s unapplied p k
+    | some te =>
+      if cannotHaveChildren te then augFail id addErrors a s unapplied p k else
+      match s.forest.tree? t with
+      | none => augFail id addErrors a s unapplied p k
+      | some root =>
+        let root := root.updateAt path fun te => te.merge (some nsOf) a
+        ({ s with forest := s.forest.setTree t root }, unapplied, p + 1, k)
+
+theorem augmentTree_eq (reg : Registry) (id : Nat) (addErrors : Bool) (s : PState) :
+    augmentTree reg id addErrors s =
+      (let r := (s.pendingOf id).foldl (augStep reg id addErrors (namespaceAt reg s.forest (id, []))) (s, [], 0, 0)
+       (r.1.setPending id r.2.1, r.2.2.1, r.2.2.2)) := by
+  rfl
+
+
+/-- What one step of the loop does to the state and the counters. -/
+structure AugStepOK (id : Nat) (addErrors : Bool) (a : Entry) (s0 : PState)
+    (acc acc' : PState × List Entry × Nat × Nat) : Prop where
+  fle : FLe s0.forest acc'.1.forest
+  pend : acc'.1.pending = acc.1.pending
+  res : (acc'.2.1 = acc.2.1 ∧ acc'.2.2.2 = acc.2.2.2) ∨
+    (acc'.2.1 = acc.2.1 ++ [a] ∧ acc'.2.2.2 = acc.2.2.2 + 1 ∧
+      (addErrors = true → id ∈ fkeys s0.forest → RootErrAt acc'.1.forest id))
+
+theorem augFail_ok (id : Nat) (addErrors : Bool) (a : Entry) (s0 s : PState) (un : List Entry) (p k : Nat)
+    (pend0 : List (Nat × List Entry)) (hf : FLe s0.forest s.forest) (hp : s.pending = pend0) :
+    FLe s0.forest (augFail id addErrors a s un p k).1.forest ∧ (augFail id addErrors a s un p k).1.pending = pend0 ∧
+    (augFail id addErrors a s un p k).2.1 = un ++ [a] ∧ (augFail id addErrors a s un p k).2.2.2 = k + 1 ∧
+    (addErrors = true → id ∈ fkeys s0.forest → RootErrAt (augFail id addErrors a s un p k).1.forest id) := by
+  unfold augFail
+  dsimp only
+  cases addErrors with
+  | false => simp only [Bool.false_eq_true, if_false]; exact ⟨hf, hp, by first | rfl | trivial, by first | rfl | trivial, fun h => absurd h (by simp)⟩
+  | true =>
+    simp only [if_true]
+    cases ht : s.forest.tree? id with
+    | none =>
+      refine ⟨hf, hp, by first | rfl | trivial, by first | rfl | trivial, ?_⟩
+      intro _ hid
+      have : (s.forest.tree? id).isSome = true := (tree?_isSome _ _).2 (by rw [hf.1]; exact hid)
+      rw [ht] at this; exact absurd this (by simp)
+    | some root =>
+      dsimp only
+      refine ⟨hf.trans (FLe_setTree _ _ _ _ ht (ownMono_addErr _ _)), hp, by first | rfl | trivial, by first | rfl | trivial, ?_⟩
+      intro _ _
+      refine ⟨root.addErr (Err.at_ a.d.node "augment-not-found"), ?_, ?_⟩
+      · rw [tree?_setTree]; simp [ht]
+      · cases root; simp [Entry.addErr, Entry.withD, Entry.d]
+
+theorem augStep_ok (reg : Registry) (id : Nat) (addErrors : Bool) (nsOf : String) (s0 : PState)
+    (acc : PState × List Entry × Nat × Nat) (a : Entry) (hf : FLe s0.forest acc.1.forest) :
+    AugStepOK id addErrors a s0 acc (augStep reg id addErrors nsOf acc a) := by
+  obtain ⟨s, un, p, k⟩ := acc
+  dsimp only at hf
+  have hfind := FLe_find reg s.forest (id, []) a.d.nodeMod a.d.name
+  unfold augStep
+  dsimp only
+  generalize find reg s.forest (id, []) a.d.nodeMod a.d.name = r at hfind
+  obtain ⟨target, forest⟩ := r
+  dsimp only at hfind ⊢
+  have hf2 : FLe s0.forest forest := hf.trans hfind
+  have fail := augFail_ok id addErrors a s0 { s with forest := forest } un p k s.pending hf2 rfl
+  have failOK : AugStepOK id addErrors a s0 (s, un, p, k) (augFail id addErrors a { s with forest := forest } un p k) :=
+    ⟨fail.1, fail.2.1, Or.inr ⟨fail.2.2.1, fail.2.2.2.1, fail.2.2.2.2⟩⟩
+  repeat' split
+  all_goals first
+    | exact failOK
+    | (rename_i root hroot
+       refine ⟨hf2.trans (FLe_setTree _ _ _ _ hroot (ownMono_updateAt _ (fun x => ownMono_merge _ _ _) _ _)), rfl,
+         Or.inl ⟨rfl, rfl⟩⟩)
+
+
+/-- One `Augment` call: the forest keeps its keys and its root errors; the pending list of `id`
+becomes the list `un` of augments that could not be applied (`k = un.length`), the other pending
+lists are untouched; and with `addErrors`, a non-empty `un` leaves an error on the root of tree `id`. -/
+theorem augmentTree_ok (reg : Registry) (id : Nat) (addErrors : Bool) (s : PState) :
+    ∃ un : List Entry,
+      FLe s.forest (augmentTree reg id addErrors s).1.forest ∧
+      (augmentTree reg id addErrors s).1.pending =
+        s.pending.map (fun (ip : Nat × List Entry) => if ip.1 == id then (ip.1, un) else (ip.1, ip.2)) ∧
+      (∀ a ∈ un, a ∈ s.pendingOf id) ∧
+      (augmentTree reg id addErrors s).2.2 = un.length ∧
+      (addErrors = true → un ≠ [] → id ∈ fkeys s.forest → RootErrAt (augmentTree reg id addErrors s).1.forest id) := by
+  rw [augmentTree_eq]
+  dsimp only
+  have key := foldl_inv (fun acc : PState × List Entry × Nat × Nat =>
+      FLe s.forest acc.1.forest ∧ acc.1.pending = s.pending ∧ (∀ a ∈ acc.2.1, a ∈ s.pendingOf id) ∧
+      acc.2.2.2 = acc.2.1.length ∧
+      (addErrors = true → acc.2.1 ≠ [] → id ∈ fkeys s.forest → RootErrAt acc.1.forest id))
+    (augStep reg id addErrors (namespaceAt reg s.forest (id, []))) (s.pendingOf id) (s, [], 0, 0)
+    ⟨FLe.refl _, rfl, by simp, rfl, fun _ h => absurd rfl h⟩ ?_
+  · obtain ⟨k1, k2, k3, k4, k5⟩ := key
+    refine ⟨_, k1, ?_, k3, k4, k5⟩
+    simp only [PState.setPending, k2]
+  · rintro acc a ha ⟨i1, i2, i3, i4, i5⟩
+    have st := augStep_ok reg id addErrors (namespaceAt reg s.forest (id, [])) acc.1 acc a (FLe.refl _)
+    generalize augStep reg id addErrors (namespaceAt reg s.forest (id, [])) acc a = acc' at st ⊢
+    obtain ⟨f1, f2, f3⟩ := st
+    refine ⟨i1.trans f1, f2.trans i2, ?_, ?_, ?_⟩
+    · rcases f3 with ⟨e1, _⟩ | ⟨e1, _, _⟩
+      · rw [e1]; exact i3
+      · rw [e1]; intro x hx
+        rcases List.mem_append.mp hx with hx | hx
+        · exact i3 x hx
+        · simp only [List.mem_singleton] at hx; subst hx; exact ha
+    · rcases f3 with ⟨e1, e2⟩ | ⟨e1, e2, _⟩
+      · rw [e1, e2]; exact i4
+      · rw [e1, e2, i4]; simp
+    · intro hadd hne hid
+      rcases f3 with ⟨e1, _⟩ | ⟨_, _, e3⟩
+      · rw [e1] at hne; exact (i5 hadd hne hid).mono f1
+      · exact e3 hadd (by rw [i1.1]; exact hid)
+
+/-! ### the augment loop: who still has pending augments -/
+
+theorem mem_swapRemove (mods : Array Nat) (i : Nat) (h : i < mods.size) (x : Nat) (hx : x ∈ mods) (hne : x ≠ mods[i]) :
+    x ∈ (mods.set i (mods.back?.getD 0) h).pop := by
+  obtain ⟨j, hj, rfl⟩ := Array.mem_iff_getElem.mp hx
+  have hji : j ≠ i := fun e => hne (by subst e; rfl)
+  rw [Array.mem_iff_getElem]
+  by_cases hl : j < mods.size - 1
+  · refine ⟨j, by simp; omega, ?_⟩
+    simp [Array.getElem_pop, Array.getElem_set, Ne.symm hji]
+  · have hj' : j = mods.size - 1 := by omega
+    refine ⟨i, by simp; omega, ?_⟩
+    simp only [Array.getElem_pop, Array.getElem_set_self]
+    rw [Array.back?_eq_getElem?]
+    simp [hj']
+    have : mods.size - 1 < mods.size := by omega
+    simp [Array.getElem?_eq_getElem this]
+
+/-- Every tree with pending augments exists. -/
+def InvB (s : PState) : Prop := ∀ p ∈ s.pending, p.2 ≠ [] → p.1 ∈ fkeys s.forest
+
+/-- Every tree with pending augments is still in the work list. -/
+def InvA (mods : Array Nat) (s : PState) : Prop := ∀ p ∈ s.pending, p.2 ≠ [] → p.1 ∈ mods
+
+theorem pendingOf_ne_nil (s : PState) (id : Nat) (h : s.pendingOf id ≠ []) :
+    ∃ p ∈ s.pending, p.1 = id ∧ p.2 ≠ [] := by
+  unfold PState.pendingOf at h
+  cases hf : s.pending.find? (·.1 == id) with
+  | none => simp [hf] at h
+  | some p =>
+    simp only [hf, Option.map_some, Option.getD_some] at h
+    exact ⟨p, List.mem_of_find?_eq_some hf, by simpa using List.find?_some hf, h⟩
+
+theorem invB_augmentTree (reg : Registry) (id : Nat) (addErrors : Bool) (s : PState) (hB : InvB s) :
+    InvB (augmentTree reg id addErrors s).1 := by
+  obtain ⟨un, fle, hp, hsub, _, _⟩ := augmentTree_ok reg id addErrors s
+  intro p hp' hne
+  rw [fle.1]
+  rw [hp] at hp'
+  simp only [List.mem_map] at hp'
+  obtain ⟨ip, hip, rfl⟩ := hp'
+  by_cases hid : (ip.1 == id) = true
+  · simp only [hid, if_true] at hne ⊢
+    have hid' : ip.1 = id := by simpa using hid
+    cases un with
+    | nil => exact absurd rfl hne
+    | cons a t =>
+      obtain ⟨p0, hp0, h1, h2⟩ := pendingOf_ne_nil s id (List.ne_nil_of_mem (hsub a (by simp)))
+      rw [hid', ← h1]; exact hB p0 hp0 h2
+  · simp only [hid, if_false] at hne ⊢
+    exact hB ip hip hne
+
+theorem augmentPass_inv (reg : Registry) : ∀ (fuel : Nat) (mods : Array Nat) (i processed : Nat) (s : PState),
+    InvB s → InvA mods s →
+    InvB (augmentPass reg fuel mods i processed s).2.2 ∧
+      InvA (augmentPass reg fuel mods i processed s).1 (augmentPass reg fuel mods i processed s).2.2 := by
+  intro fuel
+  induction fuel with
+  | zero => intro mods i processed s hB hA; exact ⟨hB, hA⟩
+  | succ fuel ih =>
+    intro mods i processed s hB hA
+    unfold augmentPass
+    split
+    · rename_i hi
+      have hB' := invB_augmentTree reg mods[i] false s hB
+      obtain ⟨un, fle, hp, hsub, hk, _⟩ := augmentTree_ok reg mods[i] false s
+      generalize augmentTree reg mods[i] false s = r at hB' hp hk ⊢
+      obtain ⟨s', p, k⟩ := r
+      dsimp only at hB' hp hk ⊢
+      split
+      · rename_i hk0
+        have hun : un = [] := by
+          have : k = 0 := by simpa using hk0
+          rw [this] at hk; exact List.length_eq_zero_iff.mp hk.symm
+        apply ih _ _ _ _ hB'
+        intro q hq hne
+        rw [hp] at hq
+        simp only [List.mem_map] at hq
+        obtain ⟨ip, hip, rfl⟩ := hq
+        by_cases hid : (ip.1 == mods[i]) = true
+        · simp only [hid, if_true] at hne
+          exact absurd hun hne
+        · simp only [hid, if_false] at hne ⊢
+          exact mem_swapRemove mods i hi ip.1 (hA ip hip hne) (by simpa using hid)
+      · apply ih _ _ _ _ hB'
+        intro q hq hne
+        rw [hp] at hq
+        simp only [List.mem_map] at hq
+        obtain ⟨ip, hip, rfl⟩ := hq
+        by_cases hid : (ip.1 == mods[i]) = true
+        · simp only [hid, if_true]
+          have : ip.1 = mods[i] := by simpa using hid
+          rw [this]; exact Array.getElem_mem hi
+        · simp only [hid, if_false] at hne ⊢
+          exact hA ip hip hne
+    · exact ⟨hB, hA⟩
+
+theorem augmentLoop_inv (reg : Registry) : ∀ (fuel : Nat) (mods : Array Nat) (s : PState),
+    InvB s → InvA mods s →
+    InvB (augmentLoop reg fuel mods s).2 ∧ InvA (augmentLoop reg fuel mods s).1 (augmentLoop reg fuel mods s).2 := by
+  intro fuel
+  induction fuel with
+  | zero => intro mods s hB hA; exact ⟨hB, hA⟩
+  | succ fuel ih =>
+    intro mods s hB hA
+    unfold augmentLoop
+    split
+    · exact ⟨hB, hA⟩
+    · have := augmentPass_inv reg (mods.size + 1) mods 0 0 s hB hA
+      generalize augmentPass reg (mods.size + 1) mods 0 0 s = r at this ⊢
+      obtain ⟨mods', processed, s'⟩ := r
+      dsimp only at this ⊢
+      split
+      · exact this
+      · exact ih _ _ this.1 this.2
+
+theorem foldl_prefix_inv {α β} (P : List α → β → Prop) (f : β → α → β) (l : List α) (b : β) (h0 : P [] b)
+    (hs : ∀ done a b, a ∈ l → P done b → P (done ++ [a]) (f b a)) : P l (l.foldl f b) := by
+  have gen : ∀ (l2 done : List α) (b : β), (∀ a ∈ l2, a ∈ l) → P done b → P (done ++ l2) (l2.foldl f b) := by
+    intro l2
+    induction l2 with
+    | nil => intro done b _ h; simpa using h
+    | cons a l2 ih =>
+      intro done b hsub h
+      simp only [List.foldl_cons]
+      have := ih (done ++ [a]) (f b a) (fun x hx => hsub x (by simp [hx])) (hs done a b (hsub a (by simp)) h)
+      simpa using this
+  simpa using gen l [] b (fun a h => h) h0
+
+theorem tree?_mapTrees (f : Forest) (g : Entry → Entry) (id : Nat) :
+    (Forest.tree? { trees := f.trees.map fun (ie : Nat × Entry) => (ie.1, g ie.2) } id) = (f.tree? id).map g := by
+  unfold Forest.tree?
+  simp only
+  induction f.trees with
+  | nil => simp
+  | cons a l ih =>
+    simp only [List.map_cons, List.find?_cons]
+    split
+    · simp
+    · exact ih
+
+theorem fixChoice_d (e : Entry) : (fixChoice e).d = e.d := by
+  cases e with | mk d c i o => simp [fixChoice, Entry.d]
+
+theorem FLe_fixAll (s : PState) : FLe s.forest (fixAll s).forest := by
+  unfold fixAll
+  refine ⟨?_, ?_⟩
+  · simp [fkeys, List.map_map, Function.comp_def]
+  · intro id t ht
+    refine ⟨fixChoice t, ?_, ?_⟩
+    · have := tree?_mapTrees s.forest fixChoice id
+      simp only [ht, Option.map_some] at this
+      exact this
+    · intro h; rw [fixChoice_d]; exact h
+
+/-- The pass over the trees left with pending augments (`addErrors = true`): afterwards every
+tree that still has one carries an error on its root. -/
+theorem leftover_inv (reg : Registry) (left : Array Nat) (s : PState) (hB : InvB s) (hA : InvA left s) :
+    let r := left.foldl (fun (acc : PState × Nat) id =>
+      let (s, p, _) := augmentTree reg id true acc.1
+      (s, acc.2 + p)) (s, 0)
+    ∀ p ∈ r.1.pending, p.2 ≠ [] → RootErrAt r.1.forest p.1 := by
+  intro r
+  have key : InvB r.1 ∧ InvA left r.1 ∧ ∀ p ∈ r.1.pending, p.2 ≠ [] → p.1 ∈ left.toList → RootErrAt r.1.forest p.1 := by
+    show InvB r.1 ∧ InvA left r.1 ∧ _
+    simp only [r]
+    rw [← Array.foldl_toList]
+    refine foldl_prefix_inv (fun (done : List Nat) (acc : PState × Nat) =>
+      InvB acc.1 ∧ InvA left acc.1 ∧ ∀ p ∈ acc.1.pending, p.2 ≠ [] → p.1 ∈ done → RootErrAt acc.1.forest p.1)
+      _ _ _ ⟨hB, hA, fun _ _ _ h => absurd h (by simp)⟩ ?_
+    rintro done id ⟨s, cnt⟩ hid ⟨jB, jA, jE⟩
+    dsimp only at jB jA jE ⊢
+    have hB' := invB_augmentTree reg id true s jB
+    obtain ⟨un, fle, hp, hsub, hk, herr⟩ := augmentTree_ok reg id true s
+    generalize augmentTree reg id true s = r' at hB' fle hp hk herr ⊢
+    obtain ⟨s', p, k⟩ := r'
+    dsimp only at hB' fle hp hk herr ⊢
+    refine ⟨hB', ?_, ?_⟩
+    · intro q hq hne
+      rw [hp] at hq
+      simp only [List.mem_map] at hq
+      obtain ⟨ip, hip, rfl⟩ := hq
+      by_cases hk : (ip.1 == id) = true
+      · simp only [hk, if_true]
+        have : ip.1 = id := by simpa using hk
+        rw [this]; exact Array.mem_toList_iff.mp hid
+      · simp only [hk] at hne ⊢
+        exact jA ip hip hne
+    · intro q hq hne hdone
+      rw [hp] at hq
+      simp only [List.mem_map] at hq
+      obtain ⟨ip, hip, rfl⟩ := hq
+      by_cases hk : (ip.1 == id) = true
+      · simp only [hk, if_true] at hne ⊢
+        have hid' : ip.1 = id := by simpa using hk
+        rw [hid']
+        cases un with
+        | nil => exact absurd rfl hne
+        | cons a t =>
+          obtain ⟨p0, hp0, h1, h2⟩ := pendingOf_ne_nil s id (List.ne_nil_of_mem (hsub a (by simp)))
+          exact herr rfl (by simp) (by rw [← h1]; exact jB p0 hp0 h2)
+      · simp only [hk] at hne hdone ⊢
+        have hne_id : ip.1 ≠ id := by simpa using hk
+        have : ip.1 ∈ done := by
+          rcases List.mem_append.mp hdone with h | h
+          · exact h
+          · simp only [List.mem_singleton] at h; exact absurd h hne_id
+        exact (jE ip hip hne this).mono fle
+  intro p hp hne
+  exact key.2.2 p hp hne (Array.mem_toList_iff.mpr (key.2.1 p hp hne))
+
+/-! ### no augment is left unapplied after a clean `Process` -/
+
+theorem invB_pstate0 (reg : Registry) (opts : Opts) (plug : Plug) : InvB (pstate0 reg opts plug) := by
+  have hst := tstate_ok reg opts plug (closed_U (envOf reg opts plug))
+  intro p hp hne
+  simp only [pstate0, pending0, List.mem_map] at hp
+  obtain ⟨m, _, rfl⟩ := hp
+  dsimp only at hne ⊢
+  cases hf : (tstate reg opts plug).augs.find? (·.1 == m.seq) with
+  | none => simp [hf] at hne
+  | some q =>
+    have hq := List.mem_of_find?_eq_some hf
+    have hk : q.1 = m.seq := by simpa using List.find?_some hf
+    rcases hst.keys q hq with h | h
+    · simp only [pstate0, forest0, fkeys]
+      rw [← hk]; exact h
+    · exact absurd h (by simp)
+
+theorem byId_some_of_mem (reg : Registry) (m : Mod) (hm : m ∈ reg.mods) : ∃ m', reg.byId m.seq = some m' ∧ m'.seq = m.seq := by
+  unfold Registry.byId
+  cases hf : reg.mods.find? (·.seq == m.seq) with
+  | none =>
+    rw [List.find?_eq_none] at hf
+    exact absurd (hf m hm) (by simp)
+  | some m' => exact ⟨m', rfl, by simpa using List.find?_some hf⟩
+
+theorem invA_pstate0 (reg : Registry) (opts : Opts) (plug : Plug) :
+    InvA ((augOrder reg).map (·.seq)).toArray (pstate0 reg opts plug) := by
+  intro p hp _
+  simp only [pstate0, pending0, List.mem_map] at hp
+  obtain ⟨m, hm, rfl⟩ := hp
+  dsimp only
+  simp only [List.mem_toArray, List.mem_map]
+  -- m is bound in one of the two tables
+  have : ∃ kv ∈ reg.modules ++ reg.subModules, kv.2 = m.seq ∧ m ∈ reg.mods := by
+    simp only [allMods, Registry.distinctModules, Registry.distinctSubs, List.mem_append, List.mem_filter,
+      List.any_eq_true] at hm
+    rcases hm with ⟨h1, kv, h2, h3⟩ | ⟨h1, kv, h2, h3⟩
+    · exact ⟨kv, List.mem_append.mpr (Or.inl h2), by simpa using h3, h1⟩
+    · exact ⟨kv, List.mem_append.mpr (Or.inr h2), by simpa using h3, h1⟩
+  obtain ⟨kv, hkv, hseq, hmem⟩ := this
+  obtain ⟨m', hm', hs⟩ := byId_some_of_mem reg m hmem
+  refine ⟨m', ?_, hs⟩
+  unfold augOrder
+  rw [mem_sortBy]
+  simp only [List.mem_filterMap]
+  exact ⟨kv, hkv, by rw [hseq]; exact hm'⟩
+
+theorem invB_fixAll (s : PState) (h : InvB s) : InvB (fixAll s) := by
+  intro p hp hne
+  rw [(FLe_fixAll s).1]
+  exact h p hp hne
+
+theorem ownErr_forestErrs (f : Forest) (id : Nat) (h : RootErrAt f id) : forestErrs f ≠ [] := by
+  obtain ⟨t, ht, he⟩ := h
+  intro h0
+  have := (forestErrs_eq_nil f).1 h0
+  simp only [Forest.tree?, Option.map_eq_some_iff] at ht
+  obtain ⟨x, hx, rfl⟩ := ht
+  exact he (noErrors_own _ (this x (List.mem_of_find?_eq_some hx)))
+
+/-- With no errors returned, no augment is left unapplied. -/
+theorem process_clean_no_pending (reg : Registry) (opts : Opts) (plug : Plug)
+    (h : (processAll reg opts plug).errors = []) : NoPending (preDev reg opts plug) := by
+  obtain ⟨_, _, h3, _, _⟩ := processAll_clean reg opts plug h
+  have hl := augmentLoop_inv reg ((pending0 reg opts plug).foldl (fun n p => n + p.2.length) 0 + 2)
+    ((augOrder reg).map (·.seq)).toArray (pstate0 reg opts plug) (invB_pstate0 reg opts plug) (invA_pstate0 reg opts plug)
+  have hleft := leftover_inv reg (afterLoop reg opts plug).1 (fixAll (afterLoop reg opts plug).2)
+    (invB_fixAll _ hl.1) hl.2
+  intro p hp
+  apply Classical.byContradiction
+  intro hne
+  have hroot : RootErrAt (preDev reg opts plug).forest p.1 := by
+    unfold preDev at hp ⊢
+    split at hp
+    · rename_i happ
+      simp only [happ, if_true]
+      exact (hleft p hp hne).mono (FLe_fixAll _)
+    · rename_i happ
+      simp only [happ, if_false]
+      exact hleft p hp hne
+  exact ownErr_forestErrs _ _ hroot h3
+
+/-! ### `fixChoice` -/
+
+theorem fixChoiceL_eq_map (l : List Entry) : fixChoiceL l = l.map fixChoice := by
+  induction l with
+  | nil => rfl
+  | cons a l ih => simp [fixChoiceL, ih]
+
+/-- The implicit case `FixChoice` puts around a non-case child of a choice. -/
+def wrapCase (ce : Entry) : Entry :=
+  if ce.d.kind == .case_ then ce
+  else .mk { name := ce.d.name, kind := .case_, hasDir := true, config := ce.d.config, node := ce.d.node,
+             nodeMod := ce.d.nodeMod, nodeKw := "case" } [ce] [] []
+
+theorem wrapCases_eq_map (l : List Entry) : wrapCases l = l.map wrapCase := by
+  induction l with
+  | nil => rfl
+  | cons a l ih => simp [wrapCases, wrapCase, ih]
+
+theorem wrapCase_kind (ce : Entry) : (wrapCase ce).d.kind = .case_ := by
+  unfold wrapCase; split
+  · rename_i h; simpa using h
+  · rfl
+
+theorem wrapCase_name (ce : Entry) : (wrapCase ce).name = ce.name := by
+  unfold wrapCase; split <;> rfl
+
+theorem fixChoice_eq (d : EData) (c i o : List Entry) : fixChoice (.mk d c i o) =
+    .mk d (if d.kind == .choice && d.errors.isEmpty then (c.map fixChoice).map wrapCase else c.map fixChoice)
+      (i.map fixChoice) (o.map fixChoice) := by
+  simp only [fixChoice, fixChoiceL_eq_map, wrapCases_eq_map]
+
+theorem choiceCases_mk (d : EData) (c i o : List Entry) : ChoiceCases (.mk d c i o) ↔
+    (d.kind = .choice → d.errors = [] → ∀ x ∈ c, x.d.kind = .case_) ∧
+      (∀ x ∈ c, ChoiceCases x) ∧ (∀ x ∈ i, ChoiceCases x) ∧ (∀ x ∈ o, ChoiceCases x) := by
+  unfold ChoiceCases; rw [everyNode_mk]
+  simp only [choiceCasesHere, Entry.d, Entry.dir, Bool.or_eq_true, Bool.not_eq_true', Bool.and_eq_false_iff,
+    List.all_eq_true, beq_iff_eq, List.isEmpty_iff]
+  constructor
+  · rintro ⟨h1, h2⟩
+    refine ⟨fun hk he => ?_, h2⟩
+    rcases h1 with (h | h) | h
+    · rw [hk] at h; simp at h
+    · rw [he] at h; simp at h
+    · exact h
+  · rintro ⟨h1, h2⟩
+    refine ⟨?_, h2⟩
+    by_cases hk : d.kind = .choice
+    · by_cases he : d.errors = []
+      · exact Or.inr (h1 hk he)
+      · left; right; simpa using he
+    · left; left; simpa using hk
+
+theorem choiceCases_wrapCase (ce : Entry) (h : ChoiceCases ce) : ChoiceCases (wrapCase ce) := by
+  unfold wrapCase; split
+  · exact h
+  · rw [choiceCases_mk]
+    refine ⟨fun hk => absurd hk (by simp), ?_, by simp, by simp⟩
+    intro x hx; simp only [List.mem_singleton] at hx; subst hx; exact h
+
+/-- After `FixChoice`, every child of every choice node without an error of its own is a case. -/
+theorem fixChoice_cases (e : Entry) : ChoiceCases (fixChoice e) := by
+  induction e using entry_ind with
+  | h d c i o hc hi ho =>
+    rw [fixChoice_eq, choiceCases_mk]
+    refine ⟨?_, ?_, ?_, ?_⟩
+    · intro hk he x hx
+      simp only [hk, he, beq_self_eq_true, List.isEmpty_nil, Bool.and_self, if_true, List.mem_map] at hx
+      obtain ⟨y, _, rfl⟩ := hx
+      exact wrapCase_kind y
+    · intro x hx
+      split at hx
+      · simp only [List.mem_map] at hx
+        obtain ⟨y, ⟨z, hz, rfl⟩, rfl⟩ := hx
+        exact choiceCases_wrapCase _ (hc z hz)
+      · simp only [List.mem_map] at hx
+        obtain ⟨z, hz, rfl⟩ := hx
+        exact hc z hz
+    · intro x hx
+      simp only [List.mem_map] at hx
+      obtain ⟨z, hz, rfl⟩ := hx
+      exact hi z hz
+    · intro x hx
+      simp only [List.mem_map] at hx
+      obtain ⟨z, hz, rfl⟩ := hx
+      exact ho z hz
+
+theorem wrapCase_of_case (x : Entry) (h : x.d.kind = .case_) : wrapCase x = x := by
+  unfold wrapCase; simp [h]
+
+theorem fixChoice_kind (e : Entry) : (fixChoice e).d.kind = e.d.kind := by rw [fixChoice_d]
+
+theorem fixChoice_wrapCase (x : Entry) (h : fixChoice x = x) : fixChoice (wrapCase x) = wrapCase x := by
+  unfold wrapCase; split
+  · exact h
+  · rw [fixChoice_eq]
+    simp [h]
+
+/-- `FixChoice` is idempotent. -/
+theorem fixChoice_idem (e : Entry) : fixChoice (fixChoice e) = fixChoice e := by
+  induction e using entry_ind with
+  | h d c i o hc hi ho =>
+    rw [fixChoice_eq]
+    rw [fixChoice_eq]
+    congr 1
+    · by_cases hg : (d.kind == Kind.choice && d.errors.isEmpty) = true
+      · simp only [hg, if_true, List.map_map]
+        apply List.map_congr_left
+        intro x hx
+        simp only [Function.comp]
+        rw [fixChoice_wrapCase _ (hc x hx)]
+        exact wrapCase_of_case _ (wrapCase_kind _)
+      · simp only [hg, if_false, List.map_map, Bool.false_eq_true]
+        apply List.map_congr_left
+        intro x hx
+        exact hc x hx
+    · simp only [List.map_map]
+      apply List.map_congr_left
+      intro x hx; exact hi x hx
+    · simp only [List.map_map]
+      apply List.map_congr_left
+      intro x hx; exact ho x hx
+
+/-! ### updating the one node a path leads to -/
+
+/-- No step of the path goes to a child with the empty name (`walkParts` never makes one). -/
+def PathOK (p : Path) : Prop := ∀ k, Step.child k ∈ p → k ≠ ""
+
+theorem PathOK.tail {s : Step} {p : Path} (h : PathOK (s :: p)) : PathOK p := fun k hk => h k (by simp [hk])
+
+theorem names1_split (pre post : List Entry) (y : Entry) (hy : y.name ≠ "") :
+    names1 (pre ++ y :: post) = names1 pre ++ y.name :: names1 post := by
+  unfold names1
+  simp [List.filter_cons, hy]
+
+/-- Under `U`, the child a non-empty name leads to is the only child of that name. -/
+theorem child_split (c : List Entry) (k : String) (y : Entry) (hk : k ≠ "") (hu : (names1 c).Nodup)
+    (hf : c.find? (fun x => x.name == k) = some y) :
+    ∃ pre post, c = pre ++ y :: post ∧ y.name = k ∧ (∀ x ∈ pre, (x.name == k) = false) ∧
+      (∀ x ∈ post, (x.name == k) = false) := by
+  obtain ⟨hyk, pre, post, hc, hpre⟩ := List.find?_eq_some_iff_append.mp hf
+  have hyk' : y.name = k := by simpa using hyk
+  refine ⟨pre, post, hc, hyk', ?_, ?_⟩
+  · intro x hx; simpa using hpre x hx
+  · intro x hx
+    rw [hc, names1_split pre post y (by rw [hyk']; exact hk)] at hu
+    have := (List.nodup_append.mp hu).2.1
+    have hnot : y.name ∉ names1 post := (List.nodup_cons.mp this).1
+    cases hxk : (x.name == k) with
+    | false => rfl
+    | true =>
+      exfalso
+      apply hnot
+      have hxk' : x.name = k := by simpa using hxk
+      simp only [names1, List.mem_filter, List.mem_map]
+      exact ⟨⟨x, hx, by rw [hxk', hyk']⟩, by simpa [hyk'] using hk⟩
+
+theorem map_if_split (pre post : List Entry) (y : Entry) (k : String) (g : Entry → Entry)
+    (hpre : ∀ x ∈ pre, (x.name == k) = false) (hpost : ∀ x ∈ post, (x.name == k) = false) (hy : y.name = k) :
+    (pre ++ y :: post).map (fun x => if x.name == k then g x else x) = pre ++ g y :: post := by
+  simp only [List.map_append, List.map_cons]
+  have h1 : pre.map (fun x => if x.name == k then g x else x) = pre := by
+    conv => rhs; rw [← List.map_id pre]
+    apply List.map_congr_left
+    intro x hx; simp [hpre x hx]
+  have h2 : post.map (fun x => if x.name == k then g x else x) = post := by
+    conv => rhs; rw [← List.map_id post]
+    apply List.map_congr_left
+    intro x hx; simp [hpost x hx]
+  rw [h1, h2]; simp [hy]
+
+/-- The shape of an update through a `Dir` step. -/
+theorem updateAt_child (d : EData) (c i o : List Entry) (k : String) (p : Path) (f : Entry → Entry) (e : Entry)
+    (hu : U (.mk d c i o)) (hk : k ≠ "") (hg : (Entry.mk d c i o).getAt (.child k :: p) = some e) :
+    ∃ pre y post, c = pre ++ y :: post ∧ y.name = k ∧ y.getAt p = some e ∧
+      (∀ x ∈ pre, (x.name == k) = false) ∧ (∀ x ∈ post, (x.name == k) = false) ∧
+      (Entry.mk d c i o).updateAt (.child k :: p) f = .mk d (pre ++ y.updateAt p f :: post) i o := by
+  simp only [Entry.getAt, Entry.child?, Entry.dir] at hg
+  cases hf : c.find? (fun x => x.name == k) with
+  | none => simp [hf] at hg
+  | some y =>
+    simp only [hf, Option.bind_some] at hg
+    obtain ⟨pre, post, hc, hy, hpre, hpost⟩ := child_split c k y hk ((U_mk _ _ _ _).1 hu).1.1 hf
+    refine ⟨pre, y, post, hc, hy, hg, hpre, hpost, ?_⟩
+    simp only [Entry.updateAt]
+    rw [hc, map_if_split pre post y k _ hpre hpost hy]
+
+theorem updateAt_input (d : EData) (c i o : List Entry) (p : Path) (f : Entry → Entry) (e : Entry)
+    (hu : U (.mk d c i o)) (hg : (Entry.mk d c i o).getAt (.input :: p) = some e) :
+    ∃ y, i = [y] ∧ y.getAt p = some e ∧
+      (Entry.mk d c i o).updateAt (.input :: p) f = .mk d c [y.updateAt p f] o := by
+  simp only [Entry.getAt, Entry.inp] at hg
+  have hlen := ((U_mk _ _ _ _).1 hu).1.2.1
+  match i, hg, hlen with
+  | [y], hg, _ =>
+    simp only [List.head?_cons, Option.bind_some] at hg
+    exact ⟨y, rfl, hg, by simp [Entry.updateAt]⟩
+  | [], hg, _ => simp at hg
+  | _ :: _ :: _, _, hlen => simp at hlen
+
+theorem updateAt_output (d : EData) (c i o : List Entry) (p : Path) (f : Entry → Entry) (e : Entry)
+    (hu : U (.mk d c i o)) (hg : (Entry.mk d c i o).getAt (.output :: p) = some e) :
+    ∃ y, o = [y] ∧ y.getAt p = some e ∧
+      (Entry.mk d c i o).updateAt (.output :: p) f = .mk d c i [y.updateAt p f] := by
+  simp only [Entry.getAt, Entry.out] at hg
+  have hlen := ((U_mk _ _ _ _).1 hu).1.2.2
+  match o, hg, hlen with
+  | [y], hg, _ =>
+    simp only [List.head?_cons, Option.bind_some] at hg
+    exact ⟨y, rfl, hg, by simp [Entry.updateAt]⟩
+  | [], hg, _ => simp at hg
+  | _ :: _ :: _, _, hlen => simp at hlen
+
+
+/-- Induction along the path to the one node that is updated. -/
+theorem updateAt_unique_ind (R : Entry → Entry → Prop) (f : Entry → Entry) (e : Entry) (hbase : R e (f e))
+    (hchild : ∀ d pre y post i o y', U (.mk d (pre ++ y :: post) i o) → R y y' →
+      R (.mk d (pre ++ y :: post) i o) (.mk d (pre ++ y' :: post) i o))
+    (hinp : ∀ d c y o y', U (.mk d c [y] o) → R y y' → R (.mk d c [y] o) (.mk d c [y'] o))
+    (hout : ∀ d c i y y', U (.mk d c i [y]) → R y y' → R (.mk d c i [y]) (.mk d c i [y'])) :
+    ∀ (p : Path) (root : Entry), U root → PathOK p → root.getAt p = some e → R root (root.updateAt p f) := by
+  intro p
+  induction p with
+  | nil =>
+    intro root _ _ hg
+    simp only [Entry.getAt, Option.some.injEq] at hg
+    subst hg; exact hbase
+  | cons s p ih =>
+    intro root hu hp hg
+    cases root with | mk d c i o =>
+    cases s with
+    | child k =>
+      obtain ⟨pre, y, post, hc, hy, hgy, _, _, hupd⟩ := updateAt_child d c i o k p f e hu (hp k (by simp)) hg
+      rw [hupd]
+      subst hc
+      have huy : U y := ((U_mk _ _ _ _).1 hu).2.1 y (by simp)
+      exact hchild d pre y post i o _ hu (ih y huy hp.tail hgy)
+    | input =>
+      obtain ⟨y, hi, hgy, hupd⟩ := updateAt_input d c i o p f e hu hg
+      rw [hupd]; subst hi
+      have huy : U y := ((U_mk _ _ _ _).1 hu).2.2.1 y (by simp)
+      exact hinp d c y o _ hu (ih y huy hp.tail hgy)
+    | output =>
+      obtain ⟨y, ho, hgy, hupd⟩ := updateAt_output d c i o p f e hu hg
+      rw [hupd]; subst ho
+      have huy : U y := ((U_mk _ _ _ _).1 hu).2.2.2 y (by simp)
+      exact hout d c i y _ hu (ih y huy hp.tail hgy)
+
+theorem hdr_map_replace (pre post : List Entry) (y y' : Entry) (h : hdr y' = hdr y) :
+    (pre ++ y' :: post).map hdr = (pre ++ y :: post).map hdr := by simp [h]
+
+/-- `U` survives an update of the node at `p` that keeps the node's name. -/
+theorem U_updateAt (f : Entry → Entry) (e : Entry) (hf : U (f e)) (hn : (f e).name = e.name)
+    (p : Path) (root : Entry) (hu : U root) (hp : PathOK p) (hg : root.getAt p = some e) : U (root.updateAt p f) := by
+  have := updateAt_unique_ind (fun a b => U b ∧ b.name = a.name) f e ⟨hf, hn⟩ ?_ ?_ ?_ p root hu hp hg
+  · exact this.1
+  · intro d pre y post i o y' hu' ⟨h1, h2⟩
+    refine ⟨?_, rfl⟩
+    rw [U_mk] at hu' ⊢
+    refine ⟨⟨?_, hu'.1.2⟩, ?_, hu'.2.2⟩
+    · have : names1 (pre ++ y' :: post) = names1 (pre ++ y :: post) := by
+        unfold names1; simp [h2]
+      rw [this]; exact hu'.1.1
+    · intro x hx
+      rcases List.mem_append.mp hx with hx | hx
+      · exact hu'.2.1 x (by simp [hx])
+      · rcases List.mem_cons.mp hx with hx | hx
+        · subst hx; exact h1
+        · exact hu'.2.1 x (by simp [hx])
+  · intro d c y o y' hu' ⟨h1, _⟩
+    refine ⟨?_, rfl⟩
+    rw [U_mk] at hu' ⊢
+    exact ⟨⟨hu'.1.1, by simp, hu'.1.2.2⟩, hu'.2.1, by simpa using h1, hu'.2.2.2⟩
+  · intro d c i y y' hu' ⟨h1, _⟩
+    refine ⟨?_, rfl⟩
+    rw [U_mk] at hu' ⊢
+    exact ⟨⟨hu'.1.1, hu'.1.2.1, by simp⟩, hu'.2.1, hu'.2.2.1, by simpa using h1⟩
+
+/-- If the updated tree carries no error and that says the old node carried none, the old tree carried none. -/
+theorem noErrors_of_updateAt (f : Entry → Entry) (e : Entry) (hf : NoErrors (f e) → NoErrors e)
+    (p : Path) (root : Entry) (hu : U root) (hp : PathOK p) (hg : root.getAt p = some e)
+    (h : NoErrors (root.updateAt p f)) : NoErrors root ∧ NoErrors (f e) := by
+  have := updateAt_unique_ind (fun a b => NoErrors b → NoErrors a ∧ NoErrors (f e)) f e (fun h => ⟨hf h, h⟩)
+    ?_ ?_ ?_ p root hu hp hg
+  · exact this h
+  · intro d pre y post i o y' _ hr hn
+    rw [noErrors_mk] at hn
+    have hy := hr (hn.2.1 y' (by simp))
+    refine ⟨?_, hy.2⟩
+    rw [noErrors_mk]
+    refine ⟨hn.1, ?_, hn.2.2⟩
+    intro x hx
+    rcases List.mem_append.mp hx with hx | hx
+    · exact hn.2.1 x (by simp [hx])
+    · rcases List.mem_cons.mp hx with hx | hx
+      · subst hx; exact hy.1
+      · exact hn.2.1 x (by simp [hx])
+  · intro d c y o y' _ hr hn
+    rw [noErrors_mk] at hn
+    have hy := hr (hn.2.2.1 y' (by simp))
+    exact ⟨(noErrors_mk _ _ _ _).2 ⟨hn.1, hn.2.1, by simpa using hy.1, hn.2.2.2⟩, hy.2⟩
+  · intro d c i y y' _ hr hn
+    rw [noErrors_mk] at hn
+    have hy := hr (hn.2.2.2 y' (by simp))
+    exact ⟨(noErrors_mk _ _ _ _).2 ⟨hn.1, hn.2.1, hn.2.2.1, by simpa using hy.1⟩, hy.2⟩
+
+/-- A local predicate that reads the children's names and kinds only survives an update of the
+node at `p` that keeps the node's name and kind. -/
+theorem everyNode_updateAt (q : Entry → Bool)
+    (hq : ∀ d c i o c' i' o', c.map hdr = c'.map hdr → i.map hdr = i'.map hdr → o.map hdr = o'.map hdr →
+      q (.mk d c i o) = q (.mk d c' i' o'))
+    (f : Entry → Entry) (e : Entry) (hf : everyNode q e = true → everyNode q (f e) = true) (hh : hdr (f e) = hdr e)
+    (p : Path) (root : Entry) (hu : U root) (hp : PathOK p) (hg : root.getAt p = some e)
+    (h : everyNode q root = true) : everyNode q (root.updateAt p f) = true := by
+  have := updateAt_unique_ind (fun a b => everyNode q a = true → everyNode q b = true ∧ hdr b = hdr a) f e
+    (fun h => ⟨hf h, hh⟩) ?_ ?_ ?_ p root hu hp hg
+  · exact (this h).1
+  · intro d pre y post i o y' _ hr hn
+    rw [everyNode_mk] at hn
+    have hy := hr (hn.2.1 y (by simp))
+    refine ⟨?_, rfl⟩
+    rw [everyNode_mk]
+    refine ⟨?_, ?_, hn.2.2⟩
+    · rw [hq d _ i o (pre ++ y :: post) i o (hdr_map_replace pre post y y' hy.2) rfl rfl]; exact hn.1
+    · intro x hx
+      rcases List.mem_append.mp hx with hx | hx
+      · exact hn.2.1 x (by simp [hx])
+      · rcases List.mem_cons.mp hx with hx | hx
+        · subst hx; exact hy.1
+        · exact hn.2.1 x (by simp [hx])
+  · intro d c y o y' _ hr hn
+    rw [everyNode_mk] at hn
+    have hy := hr (hn.2.2.1 y (by simp))
+    refine ⟨?_, rfl⟩
+    rw [everyNode_mk]
+    refine ⟨?_, hn.2.1, by simpa using hy.1, hn.2.2.2⟩
+    rw [hq d c [y'] o c [y] o rfl (by simp [hy.2]) rfl]; exact hn.1
+  · intro d c i y y' _ hr hn
+    rw [everyNode_mk] at hn
+    have hy := hr (hn.2.2.2 y (by simp))
+    refine ⟨?_, rfl⟩
+    rw [everyNode_mk]
+    refine ⟨?_, hn.2.1, hn.2.2.1, by simpa using hy.1⟩
+    rw [hq d c i [y'] c i [y] rfl rfl (by simp [hy.2])]; exact hn.1
+
+/-- The conditional invariant survives an update of the node at `p`. -/
+theorem cond_updateAt (q : Entry → Bool)
+    (hq : ∀ d c i o c' i' o', c.map hdr = c'.map hdr → i.map hdr = i'.map hdr → o.map hdr = o'.map hdr →
+      q (.mk d c i o) = q (.mk d c' i' o'))
+    (f : Entry → Entry) (e : Entry) (hne : NoErrors (f e) → NoErrors e)
+    (hf : NoErrors (f e) → everyNode q e = true → everyNode q (f e) = true) (hh : hdr (f e) = hdr e)
+    (p : Path) (root : Entry) (hu : U root) (hp : PathOK p) (hg : root.getAt p = some e)
+    (h : Cond q root) : Cond q (root.updateAt p f) := by
+  intro hn
+  obtain ⟨h1, h2⟩ := noErrors_of_updateAt f e hne p root hu hp hg hn
+  exact everyNode_updateAt q hq f e (hf h2) hh p root hu hp hg (h h1)
+
+theorem pathOK_nil : PathOK [] := fun k h => absurd h (by simp)
+theorem pathOK_append_input (p : Path) (h : PathOK p) : PathOK (p ++ [.input]) := by
+  intro k hk; simp only [List.mem_append, List.mem_singleton, reduceCtorEq, or_false] at hk; exact h k hk
+theorem pathOK_append_output (p : Path) (h : PathOK p) : PathOK (p ++ [.output]) := by
+  intro k hk; simp only [List.mem_append, List.mem_singleton, reduceCtorEq, or_false] at hk; exact h k hk
+theorem pathOK_append_child (p : Path) (nm : String) (h : PathOK p) (hn : nm ≠ "") : PathOK (p ++ [.child nm]) := by
+  intro k hk
+  simp only [List.mem_append, List.mem_singleton, Step.child.injEq] at hk
+  rcases hk with hk | hk
+  · exact h k hk
+  · rw [hk]; exact hn
+theorem pathOK_dropLast (p : Path) (h : PathOK p) : PathOK p.dropLast :=
+  fun k hk => h k (List.dropLast_subset p hk)
+
+/-- `walkParts` with what it knows at each lazy creation: the path is proper, leads to a node, and
+that node has no input (output) yet. -/
+theorem walkParts_inv2 (P : Entry → Prop)
+    (hin : ∀ root p e, P root → PathOK p → root.getAt p = some e → e.inp = [] → P (root.updateAt p setImplicitIn))
+    (hout : ∀ root p e, P root → PathOK p → root.getAt p = some e → e.out = [] → P (root.updateAt p setImplicitOut)) :
+    ∀ (parts : List String) (root : Entry) (cur : Option Path), P root → (∀ p, cur = some p → PathOK p) →
+      P (walkParts parts root cur).2 ∧ (∀ p, (walkParts parts root cur).1 = some p → PathOK p) := by
+  intro parts
+  induction parts with
+  | nil => intro root cur h hc; exact ⟨h, hc⟩
+  | cons part rest ih =>
+    intro root cur h hc
+    unfold walkParts
+    dsimp only
+    split
+    · exact ⟨h, fun p hp => absurd hp (by simp)⟩
+    · rename_i p
+      have hp : PathOK p := hc p rfl
+      split
+      · exact ⟨h, fun p hp => absurd hp (by simp)⟩
+      · rename_i e he
+        split
+        · exact ih root _ h (fun q hq => by cases hq; exact hp)
+        · split
+          · refine ih root _ h (fun q hq => ?_)
+            split at hq
+            · exact absurd hq (by simp)
+            · cases hq; exact pathOK_dropLast p hp
+          · split
+            · split
+              · refine ih _ _ ?_ (fun q hq => by cases hq; exact pathOK_append_input p hp)
+                split
+                · rename_i hemp
+                  exact hin root p e h hp he (by simpa using hemp)
+                · exact h
+              · split
+                · refine ih _ _ ?_ (fun q hq => by cases hq; exact pathOK_append_output p hp)
+                  split
+                  · rename_i hemp
+                    exact hout root p e h hp he (by simpa using hemp)
+                  · exact h
+                · exact ⟨h, fun p hp => absurd hp (by simp)⟩
+            · split
+              · exact ih root _ h (fun q hq => by cases hq; exact hp)
+              · split
+                · exact ⟨h, fun p hp => absurd hp (by simp)⟩
+                · rename_i hnm
+                  split
+                  · refine ih root _ h (fun q hq => ?_)
+                    cases hq
+                    refine pathOK_append_child p _ hp ?_
+                    intro h0; apply hnm; simp [h0]
+                  · exact ih root _ h (fun q hq => absurd hq (by simp))
+
+/-! ### the tree invariant of the augment stage -/
+
+/-- Unconditionally `U`; and if error-free, `q` everywhere. -/
+def TInv (q : Entry → Bool) (t : Entry) : Prop := U t ∧ Cond q t
+
+theorem U_getAt (p : Path) (root e : Entry) (h : U root) (hg : root.getAt p = some e) : U e :=
+  everyNode_getAt _ p root e h hg
+
+theorem U_implicitIO (parent : Entry) (b : Bool) : U (implicitIO parent b) := by
+  unfold implicitIO; rw [U_mk]; simp [names1]
+
+theorem find_inv2 (P : Entry → Prop)
+    (hw : ∀ parts root cur, P root → (∀ p, cur = some p → PathOK p) →
+      P (walkParts parts root cur).2 ∧ ∀ p, (walkParts parts root cur).1 = some p → PathOK p)
+    (hadd : ∀ e x, P e → P (e.addErr x))
+    (reg : Registry) (f : Forest) (start : Loc) (ctx : Nat) (name : String) (hf : ForestAll P f)
+    (hs : PathOK start.2) :
+    ForestAll P (find reg f start ctx name).2 ∧
+      ∀ t path, (find reg f start ctx name).1 = some (t, path) → PathOK path := by
+  unfold find
+  dsimp only
+  repeat' split
+  all_goals first
+    | exact ⟨hf, fun t path h => absurd h (by simp)⟩
+    | (rename_i heq
+       exact ⟨forestAll_setTree _ _ _ hf (hadd _ _ (forestAll_tree? _ _ _ hf heq)), fun t path h => absurd h (by simp)⟩)
+    | (rename_i heq
+       have hroot := forestAll_tree? _ _ _ hf heq
+       have hside : ∀ (c : Path), (c = [] ∨ c = start.2) → ∀ p, some c = some p → PathOK p := by
+         intro c hc p hp; cases hp; rcases hc with rfl | rfl
+         · exact pathOK_nil
+         · exact hs
+       refine ⟨forestAll_setTree _ _ _ hf (hw _ _ _ hroot (hside _ (by first | exact Or.inl rfl | exact Or.inr rfl))).1, ?_⟩
+       intro t path h
+       simp only [Option.map_eq_some_iff, Prod.mk.injEq] at h
+       obtain ⟨a, ha, _, rfl⟩ := h
+       exact (hw _ _ _ hroot (hside _ (by first | exact Or.inl rfl | exact Or.inr rfl))).2 a ha)
+
+section TInvLemmas
+variable {env : Env} {q : Entry → Bool} (hq : LocalOK env q)
+include hq
+
+theorem everyNode_implicitIO (parent : Entry) (b : Bool) : everyNode q (implicitIO parent b) = true := by
+  unfold implicitIO
+  rw [everyNode_mk]
+  refine ⟨hq.base _ rfl ?_ (fun h => absurd h (by simp)) rfl, by simp, by simp, by simp⟩
+  cases b <;> simp
+
+theorem tinv_setImplicitIn (root : Entry) (p : Path) (e : Entry) (h : TInv q root) (hp : PathOK p)
+    (hg : root.getAt p = some e) (hi : e.inp = []) : TInv q (root.updateAt p setImplicitIn) := by
+  have hue := U_getAt p root e h.1 hg
+  cases e with | mk d c i o =>
+  simp only [Entry.inp] at hi; subst hi
+  refine ⟨U_updateAt setImplicitIn _ ?_ rfl p root h.1 hp hg, ?_⟩
+  · rw [U_mk] at hue
+    simp only [setImplicitIn]
+    rw [U_mk]
+    refine ⟨⟨hue.1.1, by simp, hue.1.2.2⟩, hue.2.1, ?_, hue.2.2.2⟩
+    intro x hx; simp only [List.mem_singleton] at hx; subst hx; exact U_implicitIO _ _
+  · refine cond_updateAt q hq.hdr setImplicitIn _ ?_ ?_ rfl p root h.1 hp hg h.2
+    · intro hn
+      simp only [setImplicitIn] at hn
+      rw [noErrors_mk] at hn ⊢
+      exact ⟨hn.1, hn.2.1, by simp, hn.2.2.2⟩
+    · intro _ he
+      simp only [setImplicitIn]
+      rw [everyNode_mk] at he ⊢
+      refine ⟨hq.setInp _ _ _ _ he.1 rfl, he.2.1, ?_, he.2.2.2⟩
+      intro x hx; simp only [List.mem_singleton] at hx; subst hx; exact everyNode_implicitIO hq _ _
+
+theorem tinv_setImplicitOut (root : Entry) (p : Path) (e : Entry) (h : TInv q root) (hp : PathOK p)
+    (hg : root.getAt p = some e) (ho : e.out = []) : TInv q (root.updateAt p setImplicitOut) := by
+  have hue := U_getAt p root e h.1 hg
+  cases e with | mk d c i o =>
+  simp only [Entry.out] at ho; subst ho
+  refine ⟨U_updateAt setImplicitOut _ ?_ rfl p root h.1 hp hg, ?_⟩
+  · rw [U_mk] at hue
+    simp only [setImplicitOut]
+    rw [U_mk]
+    refine ⟨⟨hue.1.1, hue.1.2.1, by simp⟩, hue.2.1, hue.2.2.1, ?_⟩
+    intro x hx; simp only [List.mem_singleton] at hx; subst hx; exact U_implicitIO _ _
+  · refine cond_updateAt q hq.hdr setImplicitOut _ ?_ ?_ rfl p root h.1 hp hg h.2
+    · intro hn
+      simp only [setImplicitOut] at hn
+      rw [noErrors_mk] at hn ⊢
+      exact ⟨hn.1, hn.2.1, hn.2.2.1, by simp⟩
+    · intro _ he
+      simp only [setImplicitOut]
+      rw [everyNode_mk] at he ⊢
+      refine ⟨hq.setOut _ _ _ _ he.1 rfl, he.2.1, he.2.2.1, ?_⟩
+      intro x hx; simp only [List.mem_singleton] at hx; subst hx; exact everyNode_implicitIO hq _ _
+
+theorem tinv_walkParts (parts : List String) (root : Entry) (cur : Option Path) (h : TInv q root)
+    (hc : ∀ p, cur = some p → PathOK p) :
+    TInv q (walkParts parts root cur).2 ∧ ∀ p, (walkParts parts root cur).1 = some p → PathOK p :=
+  walkParts_inv2 (TInv q) (fun root p e h hp hg hi => tinv_setImplicitIn hq root p e h hp hg hi)
+    (fun root p e h hp hg ho => tinv_setImplicitOut hq root p e h hp hg ho) parts root cur h hc
+
+theorem tinv_addErr (e : Entry) (x : Err) (h : TInv q e) : TInv q (e.addErr x) :=
+  ⟨(U_withD _ _).2 h.1, cond_addErr hq _ _ h.2⟩
+
+theorem tinv_find (reg : Registry) (f : Forest) (start : Loc) (ctx : Nat) (name : String)
+    (hf : ForestAll (TInv q) f) (hs : PathOK start.2) :
+    ForestAll (TInv q) (find reg f start ctx name).2 ∧
+      ∀ t path, (find reg f start ctx name).1 = some (t, path) → PathOK path :=
+  find_inv2 (TInv q) (fun parts root cur h hc => tinv_walkParts hq parts root cur h hc)
+    (fun e x h => tinv_addErr hq e x h) reg f start ctx name hf hs
+
+end TInvLemmas
+
 end Goyang.Lemmas.Tree
